@@ -505,6 +505,39 @@ def run_func(case):
   if not ok:
     return bad("func:elementwise", "container result is not the function applied to each element",
                {"f": name, "container": cont, "values": scal}, got)
+  # an element outside the function's domain: the broadcast is the function applied to that element,
+  # so it raises what the function raises on the scalar (at once for eager containers, when the
+  # element is produced for lazy ones) - it neither swallows nor replaces the error
+  if cont in ("list", "tuple", "deque", "stream", "generator", "map") and cont != "range":
+    badx, etype = None, None
+    for cand in (-1, 0, 2, -2.5, float("inf"), "Gx", 10 ** 400, None, 1e400, -1.5):
+      try:
+        call(cand)
+      except Exception as exc:
+        badx, etype = cand, type(exc)
+        break
+    if badx is not None and not isinstance(xs[0], str) == isinstance(badx, str) and name in ("str2midi", "str2freq"):
+      badx = None
+    if badx is not None:
+      seq = [xs[0], badx, xs[1 % len(xs)]]
+      mk = {"list": list, "tuple": tuple, "deque": deque, "stream": lambda v: Stream(list(v)),
+            "generator": lambda v: (e for e in list(v)), "map": lambda v: map(lambda e: e, list(v))}[cont]
+      first, raised = [], None
+      try:
+        out = call(mk(seq))
+        for v in out:
+          first.append(v)
+          if len(first) > 3:
+            break
+      except Exception as exc:
+        raised = type(exc)
+      lazy_kind = cont in ("stream", "generator", "map")
+      if raised is not etype or (lazy_kind and not (len(first) == 1 and close(first[0], scal[0]))):
+        return bad("func:element-error", "an element outside the domain must raise what the function raises on that "
+                   "scalar (after the elements before it, for lazy containers)",
+                   {"f": name, "container": cont, "element": repr(badx), "raises": etype.__name__,
+                    "before": [scal[0]] if lazy_kind else []},
+                   {"raised": getattr(raised, "__name__", None), "items": [repr(v) for v in first]})
   return R(None, True, (cont, route))
 
 
